@@ -111,6 +111,11 @@ def run(ctx, P):
                 # a member is registered under the name its configuration gives it standalone
                 natural = build_any(s, **e).name
                 ctx.require(f"member{j}-name==standalone-name" + lab, m.name == natural, f"{m.name!r} vs {natural!r}")
+                if s[0] == "amorph":
+                    from hexital.analysis import MOVEMENT_MAP, PATTERN_MAP
+                    from hexital.indicators import INDICATOR_MAP
+                    kwform = INDICATOR_MAP["Amorph"](analysis=(MOVEMENT_MAP | PATTERN_MAP)[s[1]], **dict(s[2]), **e).name
+                    ctx.require(f"member{j}-name==keyword-form-name" + lab, m.name == kwform, f"{m.name!r} vs {kwform!r}")
             # standalone twin: same effective configuration, same name, fed the same stream the same way
             src2 = clone(cs)
             twin = build_any(s, candles=src2[:pre], **{**level, **e, "fullname_override": m.name})
